@@ -213,7 +213,7 @@ func cmdRun(args []string) int {
 			fmt.Println("  TRUNCATED: path cap reached; exploration incomplete")
 		}
 		// vacuity
-		if !r.Truncated && len(r.EngineErr) == 0 {
+		if !r.Truncated && len(r.EngineErr) == 0 && len(r.Viols) == 0 {
 			if r.Paths == 0 {
 				fmt.Printf("ENGINE-ERROR %s: vacuous harness, no feasible path reaches its end\n", r.Name)
 				exit = 2
